@@ -955,6 +955,43 @@ func rangeIndexOver(fn *ssa.Function, v ssa.Value, want func(over ssa.Value) boo
 	return false
 }
 
+// atEveryCallSite: v is a parameter of the unexported function fn, and pred
+// holds for the argument at every shipped call site (at least one).
+func (k *c10k) atEveryCallSite(fn *ssa.Function, v ssa.Value, pred func(caller *ssa.Function, arg ssa.Value) bool) bool {
+	p, ok := v.(*ssa.Parameter)
+	if !ok || fn == nil || fn.Parent() != nil {
+		return false
+	}
+	if obj := fn.Object(); obj == nil || obj.Exported() {
+		return false
+	}
+	idx := -1
+	for i, q := range fn.Params {
+		if q == p {
+			idx = i
+		}
+	}
+	node := k.c.P.CallGraph().Nodes[fn]
+	if node == nil || idx < 0 {
+		return false
+	}
+	n := 0
+	for _, e := range node.In {
+		if !isShipped(k.c, e.Caller.Func) {
+			continue
+		}
+		if e.Site == nil || e.Site.Common().IsInvoke() || e.Site.Common().StaticCallee() != fn {
+			return false
+		}
+		args := e.Site.Common().Args
+		if idx >= len(args) || !pred(e.Caller.Func, args[idx]) {
+			return false
+		}
+		n++
+	}
+	return n > 0
+}
+
 // lenOfFieldLoad: v is len(<load of owner.field>) (through a single reaching
 // store for loads of cells and int fields).
 func (k *c10k) lenOfFieldLoad(fn *ssa.Function, v ssa.Value, owner, field string, d int) bool {
@@ -973,6 +1010,10 @@ func (k *c10k) lenOfFieldLoad(fn *ssa.Function, v ssa.Value, owner, field string
 				return k.lenOfFieldLoad(fn, vals[0], owner, field, d+1)
 			}
 		}
+	case *ssa.Parameter:
+		return k.atEveryCallSite(fn, x, func(caller *ssa.Function, arg ssa.Value) bool {
+			return k.lenOfFieldLoad(caller, arg, owner, field, d+1)
+		})
 	}
 	return false
 }
@@ -1075,10 +1116,14 @@ func (k *c10k) invariants() []*c10Invariant {
 			check: both(
 				func() (bool, string) {
 					return storesAll(posting, "docID", func(st *ssa.Store) bool {
-						return rangeIndexOver(st.Parent(), st.Val, func(over ssa.Value) bool {
-							// perDocTFs := make(.., idx.N) with N = len(db.Commands)
-							return k.asLongAs(st.Parent(), over, dbT, "Commands", 0)
-						})
+						isIdx := func(fn *ssa.Function, v ssa.Value) bool {
+							return rangeIndexOver(fn, v, func(over ssa.Value) bool {
+								// perDocTFs := make(.., idx.N) with N = len(db.Commands)
+								return k.asLongAs(fn, over, dbT, "Commands", 0)
+							})
+						}
+						// directly, or as the document number handed to a per-document step
+						return isIdx(st.Parent(), st.Val) || k.atEveryCallSite(st.Parent(), st.Val, isIdx)
 					})
 				},
 				func() (bool, string) {
